@@ -49,6 +49,20 @@ pub enum Op {
     /// non-blocking poll of watch #i
     Next(usize),
     Drop(usize),
+    /// the same update / clear made through a second handle (a clone of the reporter)
+    SetB(usize, usize),
+    ClearB(usize),
+}
+
+impl Op {
+    /// which handle made an update does not matter to the reference model
+    fn canonical(&self) -> Op {
+        match self {
+            Op::SetB(s, v) => Op::Set(*s, *v),
+            Op::ClearB(s) => Op::Clear(*s),
+            o => o.clone(),
+        }
+    }
 }
 
 /// `RefHealth`: one generation per (re)registration of a service; a watch is bound to the
@@ -181,6 +195,7 @@ impl RefHealth {
                 }
                 expect(observed, &Ret::Unit)
             }
+            Op::SetB(..) | Op::ClearB(_) => self.step(&op.canonical(), observed),
         }
     }
 }
@@ -249,6 +264,8 @@ struct HistCase {
     first: Op,
     /// SERVING / NOT_SERVING updates go through set_serving::<S>() / set_not_serving::<S>()
     typed: bool,
+    /// updates and clears may also come through a clone of the reporter
+    two_handles: bool,
 }
 
 struct NamedEmpty;
@@ -258,6 +275,19 @@ impl tonic::server::NamedService for NamedEmpty {
 struct NamedA;
 impl tonic::server::NamedService for NamedA {
     const NAME: &'static str = "a";
+}
+
+fn menu2(live: &[bool], total_watches: usize, two_handles: bool) -> Vec<Op> {
+    let mut m = menu(live, total_watches);
+    if two_handles {
+        for s in 0..2 {
+            for v in 0..3 {
+                m.push(Op::SetB(s, v));
+            }
+            m.push(Op::ClearB(s));
+        }
+    }
+    m
 }
 
 fn menu(live: &[bool], total_watches: usize) -> Vec<Op> {
@@ -290,6 +320,7 @@ fn menu(live: &[bool], total_watches: usize) -> Vec<Op> {
 fn hist_body(c: &HistCase, ch: &Chooser) -> Outcome {
     tonic_health::verif_hooks::arm(false);
     let (mut reporter, server) = tonic_health::server::health_reporter();
+    let mut reporter_b = reporter.clone();
     let mut client = HealthClient::new(server);
     let mut model = RefHealth::new();
     let mut watches: Vec<Option<tonic::Streaming<HealthCheckResponse>>> = vec![];
@@ -300,7 +331,7 @@ fn hist_body(c: &HistCase, ch: &Chooser) -> Outcome {
     let mut parked_at: Vec<Option<u64>> = vec![];
     for d in 0..c.depth {
         let live: Vec<bool> = watches.iter().map(|w| w.is_some()).collect();
-        let m = menu(&live, watches.len());
+        let m = menu2(&live, watches.len(), c.two_handles);
         let op = if d == 0 { c.first.clone() } else { m[ch.pick(m.len())].clone() };
         let ret = match &op {
             Op::Set(s, v) if c.typed && *v > 0 => match (*s, *v) {
@@ -313,6 +344,8 @@ fn hist_body(c: &HistCase, ch: &Chooser) -> Outcome {
                 spin_block_on(reporter.set_service_status(SERVICES[*s], st(*v)), 1000).map(|_| Ret::Unit)
             }
             Op::Clear(s) => spin_block_on(reporter.clear_service_status(SERVICES[*s]), 1000).map(|_| Ret::Unit),
+            Op::SetB(s, v) => spin_block_on(reporter_b.set_service_status(SERVICES[*s], st(*v)), 1000).map(|_| Ret::Unit),
+            Op::ClearB(s) => spin_block_on(reporter_b.clear_service_status(SERVICES[*s]), 1000).map(|_| Ret::Unit),
             Op::Check(s) => spin_block_on(client.check(HealthCheckRequest { service: svc_name(*s).into() }), 10_000).map(status_ret),
             Op::Watch(s) => spin_block_on(client.watch(HealthCheckRequest { service: svc_name(*s).into() }), 10_000).map(|r| match r {
                 Ok(resp) => {
@@ -345,6 +378,8 @@ fn hist_body(c: &HistCase, ch: &Chooser) -> Outcome {
                 break;
             }
         };
+        let raw_op = op.clone();
+        let op = op.canonical();
         // a watcher parked on Pending must be woken by an update or clear of its registration
         if let Op::Set(s, _) | Op::Clear(s) = &op {
             let target = model.current_gen(*s);
@@ -365,7 +400,7 @@ fn hist_body(c: &HistCase, ch: &Chooser) -> Outcome {
             }
         }
         let verdict = model.step(&op, &ret);
-        trace.push((op.clone(), ret.clone()));
+        trace.push((raw_op.clone(), ret.clone()));
         if let Err(why) = verdict {
             let key = match (&op, &ret) {
                 (Op::Check(_), _) => "check-not-latest",
@@ -380,7 +415,7 @@ fn hist_body(c: &HistCase, ch: &Chooser) -> Outcome {
         }
     }
     o.obs = format!("{trace:?}");
-    o.nontrivial = trace.iter().any(|(op, _)| matches!(op, Op::Next(_))) && trace.iter().any(|(op, _)| matches!(op, Op::Set(..) | Op::Clear(_)));
+    o.nontrivial = (trace.iter().any(|(op, _)| matches!(op, Op::Next(_))) || c.two_handles) && trace.iter().any(|(op, _)| matches!(op, Op::Set(..) | Op::Clear(_) | Op::SetB(..) | Op::ClearB(_)));
     o
 }
 
@@ -439,6 +474,7 @@ fn sched_body(c: &SchedCase, ch: &Chooser) -> Outcome {
                         watch = None;
                         Ret::Unit
                     }
+                    Op::SetB(..) | Op::ClearB(_) => crate::explore::machinery("second-handle operations are not part of the schedule programs".to_string()),
                 };
                 results.borrow_mut().insert((ti, oi), r);
             }
@@ -596,14 +632,15 @@ fn sched_cases(tier: Tier) -> Vec<SchedCase> {
 pub fn property(tier: Tier) -> Property {
     let depth = tier.q(5, 7);
     let first_menu = menu(&[], 0);
-    let mut hcases: Vec<HistCase> = first_menu.iter().cloned().map(|first| HistCase { depth, first, typed: false }).collect();
-    hcases.extend(first_menu.into_iter().map(|first| HistCase { depth: depth - 1, first, typed: true }));
+    let mut hcases: Vec<HistCase> = first_menu.iter().cloned().map(|first| HistCase { depth, first, typed: false, two_handles: false }).collect();
+    hcases.extend(first_menu.iter().cloned().map(|first| HistCase { depth: depth - 1, first, typed: true, two_handles: false }));
+    hcases.extend(menu2(&[], 0, true).into_iter().map(|first| HistCase { depth: depth - 1, first, typed: false, two_handles: true }));
     let hist = Section::new(
         "histories",
         Config::default(),
-        "cases: every operation sequence of depth 5 (thorough 7) over {set(service in {'', a}, status in 3), clear(service), check(service or a never-set name), watch(service) (<= 2 watches), next(w) = one non-blocking poll of a live watch, drop(w)} (choices cost nothing; one case per first operation; and again one level shallower with every SERVING / NOT_SERVING update made through set_serving::<S>() / set_not_serving::<S>() for NamedService types named '' and 'a'), driven through the generated HealthClient wired in-process to health_reporter()'s HealthServer with no runtime; RefHealth is stepped in lock-step on every operation: check == latest (NOT_FOUND when unset/cleared/never set); a watch's reports form an order-preserving subsequence of the statuses set for its registration from the subscription on, Pending only when nothing is unreported (or the latest status equals the one reported last) and the service is still registered, end only after a clear and after the unreported latest status; never a status that was not set; every watch is polled with its own counting waker and a watcher whose last poll was Pending must have been woken by the next clear of its registration or update to a status other than the one it reported last (no lost wake-up). Non-trivial = the sequence polls a watch and contains an update or clear.",
+        "cases: every operation sequence of depth 5 (thorough 7) over {set(service in {'', a}, status in 3), clear(service), check(service or a never-set name), watch(service) (<= 2 watches), next(w) = one non-blocking poll of a live watch, drop(w)} (choices cost nothing; one case per first operation; and again one level shallower with every SERVING / NOT_SERVING update made through set_serving::<S>() / set_not_serving::<S>() for NamedService types named '' and 'a'; and again one level shallower with every update / clear available through either of two handles, the reporter and a clone of it), driven through the generated HealthClient wired in-process to health_reporter()'s HealthServer with no runtime; RefHealth is stepped in lock-step on every operation: check == latest (NOT_FOUND when unset/cleared/never set); a watch's reports form an order-preserving subsequence of the statuses set for its registration from the subscription on, Pending only when nothing is unreported (or the latest status equals the one reported last) and the service is still registered, end only after a clear and after the unreported latest status; never a status that was not set; every watch is polled with its own counting waker and a watcher whose last poll was Pending must have been woken by the next clear of its registration or update to a status other than the one it reported last (no lost wake-up). Non-trivial = the sequence polls a watch and contains an update or clear.",
         hcases,
-        |c: &HistCase| format!("depth={} first={:?} typed_api={}", c.depth, c.first, c.typed),
+        |c: &HistCase| format!("depth={} first={:?} typed_api={} two_handles={}", c.depth, c.first, c.typed, c.two_handles),
         hist_body,
     )
     .mins(10_000, 100, 1000);
